@@ -298,10 +298,51 @@ func (m *Machine) region(fn *ssa.Function, b *ssa.BasicBlock) *regionInfo {
 	for i, k := 0, len(order)-1; i < k; i, k = i+1, k-1 {
 		order[i], order[k] = order[k], order[i]
 	}
+	// Inside a loop, merging a diamond that produces integers turns concrete loop
+	// variables (indices, bounds of a binary search) into symbolic ones, and every later
+	// table access into a long ite chain: there forking is cheaper. Boolean joins
+	// (short-circuit conditions) are always merged.
+	if blockInLoop(b) {
+		for _, in := range j.Instrs {
+			phi, ok := in.(*ssa.Phi)
+			if !ok {
+				break
+			}
+			if !isBoolean(phi.Type()) {
+				return r
+			}
+		}
+		for _, x := range order {
+			for _, in := range x.Instrs {
+				if phi, ok := in.(*ssa.Phi); ok && !isBoolean(phi.Type()) {
+					return r
+				}
+			}
+		}
+	}
 	r.ok = true
 	r.join = j
 	r.order = order
 	return r
+}
+
+// blockInLoop reports whether b can reach itself.
+func blockInLoop(b *ssa.BasicBlock) bool {
+	seen := map[*ssa.BasicBlock]bool{}
+	stack := append([]*ssa.BasicBlock{}, b.Succs...)
+	for len(stack) > 0 {
+		x := stack[len(stack)-1]
+		stack = stack[:len(stack)-1]
+		if x == b {
+			return true
+		}
+		if seen[x] {
+			continue
+		}
+		seen[x] = true
+		stack = append(stack, x.Succs...)
+	}
+	return false
 }
 
 type edge struct{ from, to *ssa.BasicBlock }
